@@ -138,3 +138,11 @@ Proof.
   rewrite H0, H1. rewrite opp_IZR. split; [ring|].
   replace (n_new - a_n a + o)%Z with (- (a_n a - n_new - o))%Z by lia. rewrite opp_IZR. ring.
 Qed.
+
+(* default offset: the size change is split evenly, the odd cell goes to the left *)
+Lemma default_split n n_new :
+  let '(nl, nr) := num_lr n n_new None in ((nl + nr = n_new - n) /\ (0 <= nl - nr <= 1))%Z.
+Proof.
+  unfold num_lr. destruct (Z.eqb_spec n_new n); cbn [negb]; cbv zeta; [lia|].
+  pose proof (Z.div_mod (n_new - n) 2 ltac:(lia)). pose proof (Z.mod_pos_bound (n_new - n) 2 ltac:(lia)). lia.
+Qed.
